@@ -109,8 +109,16 @@ def _efc_row(
   frictionloss_out: wp.array2d[float],
 ):
   # calculate kbi
-  timeconst = solref[0]
-  dampratio = solref[1]
+  ref0 = solref[0]
+  ref1 = solref[1]
+
+  # mixed solref format (one entry positive, the other not): replaced with the default, as MuJoCo does
+  if (ref0 > 0.0 and ref1 <= 0.0) or (ref0 <= 0.0 and ref1 > 0.0):
+    ref0 = 0.02
+    ref1 = 1.0
+
+  timeconst = ref0
+  dampratio = ref1
   dmin = solimp[0]
   dmax = solimp[1]
   width = solimp[2]
@@ -130,16 +138,19 @@ def _efc_row(
   dmax_sq = dmax * dmax
   k = 1.0 / (dmax_sq * timeconst * timeconst * dampratio * dampratio)
   b = 2.0 / (dmax * timeconst)
-  k = wp.where(solref[0] <= 0, -solref[0] / dmax_sq, k)
-  b = wp.where(solref[1] <= 0, -solref[1] / dmax, b)
+  k = wp.where(ref0 <= 0, -ref0 / dmax_sq, k)
+  b = wp.where(ref1 <= 0, -ref1 / dmax, b)
 
   imp_x = wp.abs(pos_imp) / width
   imp_a = (1.0 / wp.pow(mid, power - 1.0)) * wp.pow(imp_x, power)
   imp_b = 1.0 - (1.0 / wp.pow(1.0 - mid, power - 1.0)) * wp.pow(1.0 - imp_x, power)
   imp_y = wp.where(imp_x < mid, imp_a, imp_b)
   imp = dmin + imp_y * (dmax - dmin)
-  imp = wp.clamp(imp, dmin, dmax)
+  # dmin > dmax is a legal (decreasing) impedance: clamp to the interval spanned by the two
+  imp = wp.clamp(imp, wp.min(dmin, dmax), wp.max(dmin, dmax))
   imp = wp.where(imp_x > 1.0, dmax, imp)
+  # flat function (MuJoCo getimpedance): zero width gives the mean impedance
+  imp = wp.where(solimp[2] <= types.MJ_MINVAL, 0.5 * (dmin + dmax), imp)
 
   # set outputs
   D_out[worldid, efcid] = 1.0 / wp.max(invweight * (1.0 - imp) / imp, types.MJ_MINVAL)
